@@ -428,6 +428,11 @@ def run(check, an: Analysis):
                    regular_ok and n_normal > 0, where_fn(preempt.fn),
                    'after a possible eviction the regular capacity rule decides '
                    '(%d returning paths)' % n_normal, analysed=n_normal)
+    # a request made while a process runs -- also inside an exception handler -- records
+    # that process: the victim of a pre-emption is found through it (rule shared with C18)
+    from ..report import SubCheck
+    from . import c18
+    c18._check_run_payload(SubCheck(check, 'Q', 'Process'), an)
     pre_cls = an.method('usim.py.resources.resource.Preempted', '__init__')
     args = [a.arg for a in pre_cls.node.args.args[1:]]
     check.instance('Q', 'Preempted', args == ['by', 'usage_since', 'resource'],
